@@ -273,6 +273,213 @@ def run_impl(events):
         shutil.rmtree(root, ignore_errors=True)
 
 
+# ---------------------------------------------------------------- version protocol (Model/C18V.v)
+
+def run_version(events):
+    """Replays a version-protocol event list on the real CacheStore: one thread per scanner
+    process, every system call of the version check is a yield point, store/load are atomic.
+    Returns the list of (loader version, entry version) pairs in the order they were served,
+    and the exceptions raised."""
+    import pickle as real_pickle
+    import shutil as real_shutil
+    import giscanner.cachestore as cs
+    root = tempfile.mkdtemp(prefix='giv18v')
+    old_xdg = os.environ.get('XDG_CACHE_HOME')
+    os.environ['XDG_CACHE_HOME'] = os.path.join(root, 'cache')
+    source = os.path.join(root, 'Dep-1.0.gir')
+    open(source, 'w').write(GIR % 0)
+    os.utime(source, (0, 0))
+    sched = Sched()
+    tls = sched.local
+
+    def y(name):
+        if getattr(tls, 'init', False):
+            sched.yield_point(name)
+
+    def cs_open(path, mode='r', *a, **k):
+        if os.path.basename(path) == cs._CACHE_VERSION_FILENAME:
+            y('vopen')
+        return open(path, mode, *a, **k)
+
+    def os_listdir(path):
+        y('listdir')
+        return os.listdir(path)
+
+    def os_unlink(path):
+        y('unlink')
+        return os.unlink(path)
+
+    def sh_move(a, b):
+        y('move')
+        return real_shutil.move(a, b)
+    saved = (cs.os, cs.shutil, getattr(cs, 'open', None), cs._get_versionhash)
+    cs.os = Proxy(os, dict(listdir=os_listdir, unlink=os_unlink))
+    cs.shutil = Proxy(real_shutil, dict(move=sh_move))
+    cs.open = cs_open
+    cs._get_versionhash = lambda: 'version-%d' % tls.version
+    served = []
+    errors = []
+    commands = {}
+    threads = []
+    cur = 0
+    npid = 0
+    try:
+        for e in events:
+            k = e[0]
+            if k == 'VSpawn':
+                pid = npid
+                npid += 1
+
+                def fn(ver=cur, pid=pid):
+                    tls.version = ver
+                    tls.init = True
+                    store = cs.CacheStore()
+                    while True:
+                        tls.init = True
+                        sched.yield_point('ready')
+                        tls.init = False
+                        cmd = commands.get(pid)
+                        if cmd == 'store':
+                            store.store(source, ('entry', ver))
+                        elif cmd == 'load':
+                            r = store.load(source)
+                            if r is not None:
+                                served.append((ver, r[1]))
+                        else:
+                            return None
+                threads.append(sched.run_thread(pid, fn))
+                sched.grant(pid)
+            elif k == 'VStep':
+                pid = e[1]
+                if pid < npid and pid not in sched.finished and pid not in sched.killed and sched.at_yield.get(pid) != 'ready':
+                    sched.grant(pid)
+            elif k in ('VStore', 'VLoad', 'VFinish'):
+                pid = e[1]
+                if pid < npid and pid not in sched.finished and pid not in sched.killed and sched.at_yield.get(pid) == 'ready':
+                    commands[pid] = {'VStore': 'store', 'VLoad': 'load', 'VFinish': 'finish'}[k]
+                    sched.grant(pid)
+            elif k == 'VKill':
+                pid = e[1]
+                with sched.cv:
+                    if pid < npid and pid not in sched.finished:
+                        sched.killed.add(pid)
+                        sched.cv.notify_all()
+                        while pid not in sched.finished:
+                            sched.cv.wait(timeout=0.05)
+            elif k == 'VUpgrade':
+                if all(p in sched.finished for p in range(npid)):
+                    cur += 1
+        for pid in range(npid):
+            r = sched.finished.get(pid)
+            if r is not None and r[0] == 'exc':
+                errors.append((pid, r[1]))
+        with sched.cv:
+            for pid in range(npid):
+                sched.killed.add(pid)
+            sched.cv.notify_all()
+        for t in threads:
+            t.join(timeout=5)
+        return served, errors
+    finally:
+        cs.os, cs.shutil, op, cs._get_versionhash = saved
+        if op is None:
+            del cs.open
+        else:
+            cs.open = op
+        if old_xdg is None:
+            os.environ.pop('XDG_CACHE_HOME', None)
+        else:
+            os.environ['XDG_CACHE_HOME'] = old_xdg
+        shutil.rmtree(root, ignore_errors=True)
+
+
+def gen_version_events(rng):
+    ev = []
+    npid = 0
+    for epoch in range(rng.choice([2, 2, 3])):
+        first = npid
+        n = rng.choice([1, 2, 2, 3])
+        live = []
+        for _ in range(rng.randint(6, 22)):
+            r = rng.random()
+            if len(live) < n and (not live or r < 0.2):
+                ev.append(('VSpawn',))
+                live.append(npid)
+                npid += 1
+            elif r < 0.6:
+                ev.append(('VStep', rng.choice(live)))
+            elif r < 0.75:
+                ev.append(('VStore', rng.choice(live)))
+            elif r < 0.93:
+                ev.append(('VLoad', rng.choice(live)))
+            elif r < 0.97:
+                ev.append(('VKill', rng.choice(live)))
+            else:
+                ev.append(('VFinish', rng.choice(live)))
+        # end of the epoch: everybody finishes or dies, possibly in the middle of the version check
+        for p in range(first, npid):
+            if rng.random() < 0.5:
+                for _ in range(rng.randint(0, 4)):
+                    ev.append(('VStep', p))
+                ev.append(('VLoad', p))
+                ev.append(('VFinish', p))
+            ev.append(('VKill', p))
+        ev.append(('VUpgrade',))
+    return ev
+
+
+V_WITNESS = [('VSpawn',), ('VStep', 0), ('VStep', 0), ('VStep', 0), ('VStore', 0), ('VFinish', 0), ('VUpgrade',),
+             ('VSpawn',), ('VStep', 1), ('VStep', 1), ('VSpawn',), ('VStep', 2), ('VLoad', 2), ('VStep', 2), ('VStep', 2),
+             ('VStep', 2), ('VLoad', 2), ('VKill', 1), ('VKill', 2), ('VUpgrade',), ('VSpawn',), ('VStep', 3), ('VStep', 3), ('VLoad', 3)]
+V_WITNESS2 = [('VSpawn',), ('VStep', 0), ('VStep', 0), ('VStep', 0), ('VStore', 0), ('VFinish', 0), ('VUpgrade',),
+              ('VSpawn',), ('VStep', 1), ('VStep', 1), ('VKill', 1), ('VSpawn',), ('VStep', 2), ('VStep', 2), ('VStep', 2),
+              ('VStep', 2), ('VLoad', 2)]
+
+
+def coq_vevent(e):
+    return e[0] if len(e) == 1 else '%s %d' % (e[0], e[1])
+
+
+def truncation_sweep(ck, thorough):
+    """an unreadable or truncated entry is discarded instead of raising: every cut of a real entry"""
+    import pickle as real_pickle
+    import giscanner.cachestore as cs
+    from giscanner import ast
+    root = tempfile.mkdtemp(prefix='giv18t')
+    old_xdg = os.environ.get('XDG_CACHE_HOME')
+    os.environ['XDG_CACHE_HOME'] = os.path.join(root, 'cache')
+    try:
+        source = os.path.join(root, 'Dep-1.0.gir')
+        open(source, 'w').write(GIR % 0)
+        os.utime(source, (0, 0))
+        store = cs.CacheStore()
+        payloads = [real_pickle.dumps(('entry', list(range(50)), {'a': 'b' * 40})),
+                    real_pickle.dumps(ast.Namespace('Dep', '1.0'))]
+        for blob in payloads:
+            cuts = range(len(blob)) if thorough else sorted(set([0, 1, 2, 3, 4, 5, len(blob) // 3, len(blob) // 2, len(blob) - 2, len(blob) - 1]))
+            for cut in cuts:
+                fn = store._get_filename(source)
+                open(fn, 'wb').write(blob[:cut])
+                case = dict(truncated_to=cut, of=len(blob))
+                ck.count_case(dict(kind='truncation', **case), nontrivial=False, kind='truncation')
+                try:
+                    r = store.load(source)
+                except BaseException as e:     # noqa
+                    ck.failing_input('loading a cache entry truncated to %d of %d bytes raises %s' % (cut, len(blob), type(e).__name__),
+                                     case, detail=repr(e))
+                    continue
+                if r is not None:
+                    ck.failing_input('a truncated cache entry was served', case, detail=repr(r)[:200])
+                elif os.path.exists(fn):
+                    ck.failing_input('a truncated cache entry was not discarded', case)
+    finally:
+        if old_xdg is None:
+            os.environ.pop('XDG_CACHE_HOME', None)
+        else:
+            os.environ['XDG_CACHE_HOME'] = old_xdg
+        shutil.rmtree(root, ignore_errors=True)
+
+
 def seen_sets(events):
     """versions current at some moment during each operation (from its Spawn to its end of the list)"""
     src = 0
@@ -337,11 +544,13 @@ def main(tier, seed):
     ck.assumptions += ['rename within the cache directory is atomic (same file system); the cross-device copy fallback '
                        'of shutil.move is not modelled', 'modification times of distinct events strictly increase '
                        '(logical clock; equal sub-tick mtimes are outside the claim)',
-                       'a strict prefix of a pickle never unpickles successfully', 'one cache entry; the '
-                       '.cache-version purge is represented by Unlink events',
+                       'a strict prefix of a pickle never unpickles successfully (every cut of two real entries is tried)',
+                       'one cache entry; in Model/C18 the .cache-version purge is represented by Unlink events; the version '
+                       'protocol itself is Model/C18V, under the hypothesis that the scanner is upgraded only while no scanner '
+                       'process is running',
                        'each thread with its own CacheStore stands for a scanner process; a kill is a thread that is '
                        'never resumed']
-    ck.prove([], models=['Model/C18.vo'])
+    ck.prove([], models=['Model/C18.vo', 'Model/C18V.vo'])
     rng = random.Random(seed)
     runs = [WITNESS_A, WITNESS_B]
     n = 250 if tier == 'quick' else 3000
@@ -409,6 +618,40 @@ def main(tier, seed):
             ev, res = runs[bad[0]], results[bad[0]]
             ck.tie_broken('correspondence', 'CacheStore/_parse_include results differ from Model.C18 (repaired protocol) '
                           'on %d schedules' % len(bad), dict(events=[list(e) for e in ev], results={str(k): v for k, v in res.items()}))
+    # ---- truncated entries
+    truncation_sweep(ck, tier == 'thorough')
+    # ---- scanner-version change (Model/C18V.v)
+    vruns = [V_WITNESS, V_WITNESS2] + [gen_version_events(rng) for _ in range(60 if tier == 'quick' else 800)]
+    vres = []
+    for ev in vruns:
+        served, errors = run_version(ev)
+        vres.append(served)
+        ck.count_case(dict(version_events=[list(e) for e in ev[:60]], served=served), nontrivial=len(served) > 0, kind='version-protocol')
+        for pid, err in errors:
+            ck.failing_input('a scanner process raised during the version protocol: %s' % err, dict(version_events=[list(e) for e in ev], pid=pid))
+        for lv, evn in served:
+            if lv != evn:
+                ck.failing_input('a scanner of version %d was served a cache entry written by scanner version %d' % (lv, evn),
+                                 dict(version_events=[list(e) for e in ev]), detail=dict(served=served))
+    if ck.models_ok:
+        items = ['(%d, %s, %s)' % (i, clist([coq_vevent(e) for e in ev]), clist(['(%d, %d)' % p for p in reversed(sv)]))
+                 for i, (ev, sv) in enumerate(zip(vruns, vres))]
+        text = '\n'.join([
+            'From Coq Require Import List Arith Bool.', 'From GIV.Model Require Import C18V.', 'Import ListNotations.',
+            'Definition peq (a b : nat * nat) := Nat.eqb (fst a) (fst b) && Nat.eqb (snd a) (snd b).',
+            'Fixpoint leq (a b : list (nat * nat)) := match a, b with [], [] => true | x :: a, y :: b => peq x y && leq a b | _, _ => false end.',
+            'Definition cases : list (nat * list vev * list (nat * nat)) := [%s].' % ';\n'.join(items),
+            "Definition vbad := Eval vm_compute in map (fun c => fst (fst c)) (filter (fun c => let '(_, evs, exp) := c in",
+            '  negb (leq (served (vrun evs)) exp)) cases).', 'Print vbad.'])
+        rc, out = coq_eval('C18_vcases', text)
+        if rc != 0:
+            ck.tie_broken('correspondence', 'version case file does not evaluate:\n' + out[-2000:])
+        else:
+            t = parse_defs(out)['vbad']
+            vbad = [int(x) for x in t.replace('%nat', '').strip('[]').split(';') if x.strip()]
+            if vbad:
+                ck.tie_broken('correspondence', 'CacheStore version protocol differs from Model.C18V on %d schedules' % len(vbad),
+                              dict(version_events=[list(e) for e in vruns[vbad[0]]], served=vres[vbad[0]]))
     return ck.finish(rule='schedules over 1-3 concurrent _parse_include operations on one cache entry: every shared '
                           'system call of the real CacheStore/Transformer code is a yield point of a baton scheduler; '
                           'events Spawn/Step/Modify (source rewritten, mtime = logical clock)/Kill/Unlink/Garbage; two '
